@@ -241,6 +241,25 @@ def run(tier, replay=None):
         evaluations += mev
         distinct += mev   # every media call carries an id unique to its goroutine and position
 
+    # ---- correspondence of value_isolation: concurrent answer vs the same request alone,
+    #      compared inside Coq (Run.solo_mismatches) on every run
+    solo_cases, solo_mism = 0, None
+    if ck.coq_ok:
+        solo_mism = []
+        for tag in ("hand", "gen"):
+            pth = os.path.join(ck.work, "cases_solo_%s.txt" % tag)
+            if not os.path.exists(pth):
+                continue
+            lines = open(pth).read().splitlines()
+            solo_cases += len(lines)
+            mm = ck.coq_eval_cases(lines, "From Coq Require Import NArith List.\nFrom Conc Require Import Run.\nImport ListNotations.", "nat * N * N", "solo_mismatches", shards=(8 if thorough else 2), tag="solo_" + tag)
+            if mm is None:
+                break
+            solo_mism += [(tag, i) for i in mm]
+        if ck.coq_ok and solo_mism and not ck.violations:
+            ck.unproved("correspondence of value_isolation broke: %d echo request(s) were answered differently under concurrency than alone" % len(solo_mism),
+                        {"broken": "Run.solo_mismatches cases = []", "mismatching_cases": solo_mism[:50]})
+
     # ---- the proof broke: search for a concrete failing schedule, then report
     searched = None
     if not ck.coq_ok:
@@ -319,6 +338,8 @@ def run(tier, replay=None):
         "rule": (res or {}).get("rule", "") + "; plus the same request kinds against the server compiled from the code generated for design 'store' and calls through the generated client",
         "samples": samples, "distribution": dist, "exhaustive": False,
         "footprint": stats,
+        "solo_correspondence_cases": solo_cases,
+        "solo_correspondence_mismatches": None if solo_mism is None else len(solo_mism),
         "footprint_locked_locations": (fp or {}).get("locked_locations"),
         "footprint_notes": (fp or {}).get("notes"),
         "phase_split": {"locations_that_would_be_unprotected_if_setup_functions_ran_during_serving":
